@@ -142,11 +142,36 @@ def check_structure(rng):
         x[rng.integers(n), rng.integers(d)] = -0.0
     one_d = rng.random() < 0.4
     arr = x[0].copy() if one_d else x.copy()
-    keep = arr.copy()
+    layout = str(rng.choice(["c", "fortran", "strided", "dup-index"]))
+    if layout == "fortran" and not one_d:
+        arr = np.asfortranarray(arr)
+    elif layout == "strided":
+        big = np.zeros(tuple(2 * np.array(arr.shape)))
+        view = big[::2] if one_d else big[::2, ::2]
+        view[...] = arr
+        arr = view                                   # non-contiguous view with the same values
+    elif layout == "dup-index":
+        if P is not None and len(P):
+            P = list(P) + [P[0]] if isinstance(P, list) else np.concatenate([P, P[:1]])
+        if Rf is not None and len(Rf):
+            Rf = list(Rf) + [Rf[0]] if isinstance(Rf, list) else np.concatenate([Rf, Rf[:1]])
+    keep = np.array(arr, copy=True, order="C")
     with np.errstate(all="ignore"):
         out = apply_boundary_conditions(arr, P, Rf)
-    if arr.tobytes() != keep.tobytes():
-        bad.append(("input-mutated", "input modified in place", dict(d=d, per=per.tolist(), ref=ref.tolist())))
+    if np.ascontiguousarray(arr).tobytes() != keep.tobytes():
+        bad.append(("input-mutated", f"input modified in place (layout {layout})", dict(d=d, per=per.tolist(), ref=ref.tolist())))
+    # the folded values must not depend on the memory layout of the input or on an index being listed twice
+    with np.errstate(all="ignore"):
+        ref_out = apply_boundary_conditions(keep.copy(), per if len(per) else None, ref if len(ref) else None)
+    dlay = np.abs(np.asarray(out, float) - np.asarray(ref_out, float))
+    if len(per):
+        dlay[..., list(per)] = np.minimum(dlay[..., list(per)], np.abs(dlay[..., list(per)] - 1.0))     # periodic end points 0 == 1
+    if layout == "dup-index":
+        same = bool(np.all(dlay <= ULP))       # an index listed twice folds twice: equal up to idempotence
+    else:
+        same = np.ascontiguousarray(out).tobytes() == np.ascontiguousarray(ref_out).tobytes()
+    if not same:
+        bad.append(("layout-dependent", f"result differs for a {layout} input / index list", dict(x=keep, per=per.tolist(), ref=ref.tolist())))
     if out.shape != arr.shape:
         bad.append(("shape", f"shape {out.shape} != {arr.shape}", None))
         return bad, dict(d=d, n=n, kp=kp, kr=kr, one_d=bool(one_d))
@@ -161,7 +186,7 @@ def check_structure(rng):
     if not one_d:
         with np.errstate(all="ignore"):
             rows = np.array([apply_boundary_conditions(r, P, Rf) for r in keep])
-        if rows.tobytes() != out.tobytes():
+        if rows.tobytes() != np.ascontiguousarray(out).tobytes():
             bad.append(("1d-vs-2d", "row-wise application differs from 2-D application", dict(x=keep)))
     # check_bounds  <=> all strict coordinates in [0,1]
     cb = check_bounds(keep, P, Rf)
